@@ -778,10 +778,21 @@ class _CurveW(StandIn):
         return [(b, a, v, u) for a, b, u, v in self.__and__(other)]
 
 
+class _OwnW(StandIn):
+    """the boundary of the shape: asked for its crossings with the queried curve, it lists the same records from its own
+    side (its segment and parameter first)"""
+
+    def intersection(self, other, equal_beziers=True, end_points=True):
+        return tuple(sorted((b, a, v, u) for a, b, u, v in other.intersection(self, equal_beziers, end_points)))
+
+    def __and__(self, other):
+        return list(self.intersection(other, equal_beziers=False, end_points=False))
+
+
 class _SelfW(StandIn):
     def __init__(self, outside):
         self.outside, self.asked = outside, []
-        self.jordans = (Obj("own_curve"),)
+        self.jordans = (_OwnW(),)
 
     def contains_point(self, point, boundary="<default>"):
         self.asked.append((point, boundary))
@@ -823,8 +834,12 @@ def contains_jordan_world(ctx, out, parts=("vertices", "mids", "flag")):
             S, J = _SelfW(outside), _CurveW()
             try:
                 got = Runner(ctx, set(), None).call_fn(fn, [S, J, flag])
-            except (Undecided, Raised) as ex:
+            except Undecided as ex:
                 out.undecided(fn.qname, f"{label}: {ex}", where=fn.where())
+                return
+            except Raised as ex:
+                out.bad(fn.qname, "the query raises on a curve that crosses the boundary", where=fn.where(),
+                        detail=f"{label}: {ex}")
                 return
             pts = [p for p, f in S.asked]
             if not S.asked:
